@@ -1,7 +1,878 @@
-//! wire interfaces of the "gc" area (see docs/AGENT_GUIDE.md for the id range)
+//! wire interfaces of the "gc" area (ids 60-69), built on the hooks of marwood/src/vm/verif.rs
+//!
+//! 60  session under a collection schedule:
+//!       60 mode k seed snap_mod snap_max chunk <program text as code points>
+//!     mode 0 = no forced collection, 1 = every k-th instruction, 2 = pseudo-random
+//!     boundaries (xorshift from seed, one in k).  chunk = heap chunk size (0 = default).
+//!     Every top-level form of the text is evaluated in turn.  Result line:
+//!       S <result>* | <display/write log> ## gc=<n> forced=<n> checked=<n> indep=<ok|FAIL:..>
+//!         cap=<capacity> used=<used> { SNAP <numbers> AFTER <canonical line> }*
+//!     The part before " ## " must not depend on the schedule (C03); after every
+//!     collection the harness runs its OWN reachability traversal on the state seen
+//!     before the collection and checks the state after it (indep=).
+//!     A collection whose index i satisfies i % snap_mod == snap_mod-1 (at most
+//!     snap_max of them) is serialised: the snapshot is a case of interface 61.
+//! 61  (model only) mark + sweep of Model/Gc.v on a serialised snapshot.
+//! 62  the packed two-bit map of gc.rs:  62 size { 0 index | 1 index state | 2 newsize }*
+//!     (get / set / resize); prints the result of every get.
+//! 65  symbol builtins:  65 op <text>   op 0 = string->symbol (prints the stored name),
+//!     1 = symbol->string of the symbol with that name, 2 = symbol->string after string->symbol.
+//! 63  heap statistics for C12:  63 chunk nforms <len text>*  — evaluates the forms in
+//!     turn and prints capacity/used after each:  H <cap>:<used>:<gc count> ...
+//! 64  symbol routes for C18 — same as 60 (a session), kept as a separate id so that
+//!     the two properties' case streams are distinguishable.
 #![allow(unused_imports, dead_code)]
 use crate::text::*;
+use marwood::cell::Cell;
+use marwood::error::Error;
+use marwood::vm::vcell::VCell;
+use marwood::vm::verif::GcEvent;
+use marwood::vm::{SystemInterface, Vm};
+use std::cell::RefCell;
+use std::collections::{HashMap, HashSet};
+use std::rc::Rc;
 
-pub fn run(_c: &[String]) -> String {
-    "BADCASE".into()
+pub fn run(c: &[String]) -> String {
+    let id: u64 = c[0].parse().unwrap_or(0);
+    match id {
+        60 | 64 => session_case(c),
+        62 => pmap_case(c),
+        63 => stats_case(c),
+        65 => symbol_case(c),
+        _ => "BADCASE".into(),
+    }
+}
+
+// ------------------------------------------------------------------ output log
+#[derive(Debug)]
+struct LogInterface {
+    log: Rc<RefCell<String>>,
+}
+impl SystemInterface for LogInterface {
+    fn display(&self, cell: &Cell) {
+        self.log.borrow_mut().push_str(&format!("d:{} ", esc(&format!("{}", cell))));
+    }
+    fn write(&self, cell: &Cell) {
+        self.log.borrow_mut().push_str(&format!("w:{} ", esc(&format!("{:#}", cell))));
+    }
+    fn terminal_dimensions(&self) -> (usize, usize) {
+        (0, 0)
+    }
+    fn time_utc(&self) -> u64 {
+        0
+    }
+}
+
+fn show_result(r: &Result<Cell, Error>) -> String {
+    match r {
+        Ok(cell) => format!("OK {}", esc(&format!("{:#}", cell))),
+        Err(Error::ErrorSignal(v)) => {
+            let s: Vec<String> = v.iter().map(|c| format!("{:#}", c)).collect();
+            format!("ERRuser {}", esc(&s.join(" ")))
+        }
+        Err(Error::ParseError(marwood::parse::Error::Incomplete))
+        | Err(Error::LexError(marwood::lex::Error::Incomplete)) => "ERRincomplete".into(),
+        Err(_) => "ERR".into(),
+    }
+}
+
+/// instruction budget of one top-level form (a run that exceeds it prints BUDGET and the
+/// session stops: a mutated collector can send a program into an endless loop)
+const BUDGET: usize = 1_000_000;
+/// at most this many collections per session (then the session panics: PANIC line)
+const MAX_COLLECTIONS: u64 = 40_000;
+
+/// evaluate every top-level form of `text` (what Vm::eval_text does: parse_text,
+/// prepare_eval, run — with a budget); returns the canonical results
+fn eval_all(vm: &mut Vm, text: &str, out: &mut String, budget: usize) {
+    let mut rest: &str = text;
+    loop {
+        if rest.trim().is_empty() {
+            return;
+        }
+        let (cell, remaining) = match marwood::parse::parse_text(rest) {
+            Ok(x) => x,
+            Err(e) => {
+                out.push_str(&show_result(&Err(e.into())));
+                out.push(' ');
+                return;
+            }
+        };
+        let r = match vm.prepare_eval(&cell) {
+            Err(e) => Err(e),
+            Ok(()) => match vm.run_count(budget) {
+                Ok(Some(c)) => Ok(c),
+                Ok(None) => {
+                    out.push_str("BUDGET ");
+                    return;
+                }
+                Err(e) => Err(e),
+            },
+        };
+        out.push_str(&show_result(&r));
+        out.push(' ');
+        match remaining {
+            Some(r) => rest = r,
+            None => return,
+        }
+    }
+}
+
+// ------------------------------------------------- independent reachability
+// The harness's own statement of what is live: everything that can be named from
+// the roots through ANY address-bearing value (no knowledge of how marwood's
+// marker is written).  Worklist, visited sets for addresses and for Rc payloads.
+struct Walk<'a> {
+    cells: &'a [VCell],
+    seen: Vec<bool>,
+    seen_rc: HashSet<usize>,
+    todo: Vec<usize>,
+    dangling: usize,
+}
+
+impl<'a> Walk<'a> {
+    fn addr(&mut self, a: usize) {
+        if a == usize::MAX {
+            return; // the initial ep / ip.0
+        }
+        if a >= self.cells.len() {
+            self.dangling += 1;
+            return;
+        }
+        if !self.seen[a] {
+            self.seen[a] = true;
+            self.todo.push(a);
+        }
+    }
+
+    fn value(&mut self, v: &VCell) {
+        match v {
+            VCell::Pair(a, d) => {
+                self.addr(*a);
+                self.addr(*d);
+            }
+            VCell::Ptr(p) => self.addr(*p),
+            VCell::Closure(l, e) => {
+                self.addr(*l);
+                self.addr(*e);
+            }
+            VCell::LexicalEnvPtr(e, _) => self.addr(*e),
+            VCell::EnvironmentPointer(e) => self.addr(*e),
+            VCell::InstructionPointer(l, _) => self.addr(*l),
+            VCell::Vector(vec) => {
+                if self.seen_rc.insert(Rc::as_ptr(vec) as *const u8 as usize) {
+                    for i in 0..vec.len() {
+                        let x = vec.get(i).unwrap();
+                        self.value(&x);
+                    }
+                }
+            }
+            VCell::LexicalEnv(env) => {
+                if self.seen_rc.insert(Rc::as_ptr(env) as *const u8 as usize) {
+                    for i in 0..env.slot_len() {
+                        let x = env.get(i);
+                        self.value(&x);
+                    }
+                }
+            }
+            VCell::Lambda(lam) => {
+                if self.seen_rc.insert(Rc::as_ptr(lam) as *const u8 as usize) {
+                    for x in lam.bc.iter() {
+                        self.value(x);
+                    }
+                    for x in lam.args.iter() {
+                        self.value(x);
+                    }
+                    for x in lam.envmap.get_map().iter() {
+                        self.value(&x.0);
+                    }
+                }
+            }
+            VCell::Continuation(k) => {
+                if self.seen_rc.insert(Rc::as_ptr(k) as *const u8 as usize) {
+                    for x in k.stack().iter() {
+                        self.value(x);
+                    }
+                    self.addr(k.ip().0);
+                    self.addr(k.ep());
+                }
+            }
+            _ => {}
+        }
+    }
+
+    fn run(&mut self) {
+        while let Some(a) = self.todo.pop() {
+            let c = self.cells[a].clone();
+            self.value(&c);
+        }
+    }
+}
+
+fn reachable(vm: &Vm) -> (Vec<bool>, usize) {
+    let cells = vm.verif_heap_cells();
+    let mut w = Walk {
+        cells,
+        seen: vec![false; cells.len()],
+        seen_rc: HashSet::new(),
+        todo: vec![],
+        dangling: 0,
+    };
+    for (sym, _) in vm.verif_global_bindings() {
+        w.addr(sym);
+    }
+    for v in vm.verif_global_slots() {
+        w.value(v);
+    }
+    for v in vm.verif_stack() {
+        w.value(v);
+    }
+    w.value(vm.verif_acc());
+    w.addr(vm.verif_ip().0);
+    w.addr(vm.verif_ep());
+    w.run();
+    (w.seen, w.dangling)
+}
+
+/// shallow identity of two cells: same constructor, same scalars, same Rc object
+fn same_cell(a: &VCell, b: &VCell) -> bool {
+    match (a, b) {
+        (VCell::Symbol(x), VCell::Symbol(y)) => Rc::ptr_eq(x, y),
+        (VCell::String(x), VCell::String(y)) => Rc::ptr_eq(x, y),
+        (VCell::Vector(x), VCell::Vector(y)) => Rc::ptr_eq(x, y),
+        (VCell::Continuation(x), VCell::Continuation(y)) => Rc::ptr_eq(x, y),
+        (VCell::Lambda(x), VCell::Lambda(y)) => Rc::ptr_eq(x, y),
+        (VCell::LexicalEnv(x), VCell::LexicalEnv(y)) => Rc::ptr_eq(x, y),
+        (VCell::Macro(x), VCell::Macro(y)) => Rc::ptr_eq(x, y),
+        (VCell::BuiltInProc(x), VCell::BuiltInProc(y)) => Rc::ptr_eq(x, y),
+        (x, y) => x == y,
+    }
+}
+
+struct Before {
+    live: Vec<bool>,
+    cells: Vec<VCell>,
+    symtab: Vec<(String, usize)>,
+    dangling: usize,
+}
+
+fn check_after(vm: &Vm, b: &Before) -> Result<(), String> {
+    let cells = vm.verif_heap_cells();
+    let states = vm.verif_gc_states();
+    if cells.len() != b.cells.len() {
+        return Err("capacity changed during mark/sweep".into());
+    }
+    if b.dangling > 0 {
+        return Err(format!("{} root/edge address(es) outside the heap", b.dangling));
+    }
+    let free: Vec<usize> = vm.verif_free_list().to_vec();
+    let mut on_free = vec![0u32; cells.len()];
+    for a in &free {
+        if *a >= cells.len() {
+            return Err(format!("free list holds {} outside the heap", a));
+        }
+        on_free[*a] += 1;
+    }
+    for i in 0..cells.len() {
+        let allocated = states[i] == 1;
+        if states[i] == 2 {
+            return Err(format!("cell {} still marked Used after sweep", i));
+        }
+        if b.live[i] && !allocated {
+            return Err(format!("live cell {} reclaimed ({:?})", i, b.cells[i]));
+        }
+        if !b.live[i] && allocated {
+            return Err(format!("unreachable cell {} still allocated ({:?})", i, b.cells[i]));
+        }
+        if b.live[i] && !same_cell(&cells[i], &b.cells[i]) {
+            return Err(format!("live cell {} changed: {:?} -> {:?}", i, b.cells[i], cells[i]));
+        }
+        if !allocated {
+            if cells[i] != VCell::Undefined {
+                return Err(format!("free cell {} not Undefined", i));
+            }
+            if on_free[i] != 1 {
+                return Err(format!("free cell {} is on the free list {} times", i, on_free[i]));
+            }
+        } else if on_free[i] != 0 {
+            return Err(format!("allocated cell {} is on the free list", i));
+        }
+    }
+    // symbol table <-> heap consistency (C18) and identity of live symbols
+    let st = vm.verif_symbol_table();
+    let mut by_addr: HashMap<usize, &str> = HashMap::new();
+    for (name, a) in &st {
+        if *a >= cells.len() || states[*a] != 1 {
+            return Err(format!("symbol table entry {:?} -> {} is not an allocated cell", name, a));
+        }
+        match &cells[*a] {
+            VCell::Symbol(s) if s.as_str() == name.as_str() => {}
+            other => return Err(format!("symbol table entry {:?} -> {} holds {:?}", name, a, other)),
+        }
+        if by_addr.insert(*a, name.as_str()).is_some() {
+            return Err(format!("two symbol table entries for cell {}", a));
+        }
+    }
+    for i in 0..cells.len() {
+        if states[i] == 1 {
+            if let VCell::Symbol(s) = &cells[i] {
+                if by_addr.get(&i).copied() != Some(s.as_str()) {
+                    return Err(format!("allocated symbol cell {} ({:?}) has no table entry", i, s));
+                }
+            }
+        }
+    }
+    for (name, a) in &b.symtab {
+        if b.live[*a] && !st.iter().any(|(n, x)| n == name && x == a) {
+            return Err(format!("live symbol {:?} lost its table entry", name));
+        }
+    }
+    Ok(())
+}
+
+// ----------------------------------------------------------- snapshot encoding
+const P61: u128 = 2305843009213693951; // 2^61 - 1
+
+fn hash_seq<I: Iterator<Item = u128>>(it: I) -> u128 {
+    let mut h: u128 = 7;
+    for x in it {
+        h = (h * 1000003 + (x % P61) + 1) % P61;
+    }
+    h
+}
+
+#[derive(Default)]
+struct Ser {
+    ids: HashMap<(u8, usize), usize>,
+    vecs: Vec<Rc<marwood::vm::vector::Vector>>,
+    envs: Vec<Rc<marwood::vm::environment::LexicalEnvironment>>,
+    lams: Vec<Rc<marwood::vm::lambda::Lambda>>,
+    conts: Vec<Rc<marwood::vm::continuation::Continuation>>,
+    nstr: usize,
+    nmac: usize,
+}
+
+fn push(o: &mut Vec<String>, x: usize) {
+    o.push(x.to_string());
+}
+
+impl Ser {
+    fn id(&mut self, kind: u8, p: usize, next: usize) -> (usize, bool) {
+        match self.ids.get(&(kind, p)) {
+            Some(i) => (*i, false),
+            None => {
+                self.ids.insert((kind, p), next);
+                (next, true)
+            }
+        }
+    }
+
+    fn vcell(&mut self, v: &VCell, o: &mut Vec<String>) {
+        match v {
+            VCell::Bool(b) => {
+                push(o, 0);
+                push(o, *b as usize)
+            }
+            VCell::Char(c) => {
+                push(o, 1);
+                push(o, *c as usize)
+            }
+            VCell::Nil => push(o, 2),
+            VCell::Number(_) => push(o, 3),
+            VCell::Pair(a, d) => {
+                push(o, 4);
+                push(o, *a);
+                push(o, *d)
+            }
+            VCell::Symbol(s) => {
+                push(o, 5);
+                push(o, s.chars().count());
+                for ch in s.chars() {
+                    push(o, ch as usize)
+                }
+            }
+            VCell::String(s) => {
+                let n = self.nstr;
+                let (i, fresh) = self.id(6, Rc::as_ptr(s) as *const u8 as usize, n);
+                if fresh {
+                    self.nstr += 1;
+                }
+                push(o, 6);
+                push(o, i)
+            }
+            VCell::Vector(x) => {
+                let n = self.vecs.len();
+                let (i, fresh) = self.id(7, Rc::as_ptr(x) as *const u8 as usize, n);
+                if fresh {
+                    self.vecs.push(x.clone());
+                }
+                push(o, 7);
+                push(o, i)
+            }
+            VCell::Undefined => push(o, 8),
+            VCell::Void => push(o, 9),
+            VCell::Continuation(x) => {
+                let n = self.conts.len();
+                let (i, fresh) = self.id(10, Rc::as_ptr(x) as *const u8 as usize, n);
+                if fresh {
+                    self.conts.push(x.clone());
+                }
+                push(o, 10);
+                push(o, i)
+            }
+            VCell::Closure(l, e) => {
+                push(o, 11);
+                push(o, *l);
+                push(o, *e)
+            }
+            VCell::Lambda(x) => {
+                let n = self.lams.len();
+                let (i, fresh) = self.id(12, Rc::as_ptr(x) as *const u8 as usize, n);
+                if fresh {
+                    self.lams.push(x.clone());
+                }
+                push(o, 12);
+                push(o, i)
+            }
+            VCell::LexicalEnv(x) => {
+                let n = self.envs.len();
+                let (i, fresh) = self.id(13, Rc::as_ptr(x) as *const u8 as usize, n);
+                if fresh {
+                    self.envs.push(x.clone());
+                }
+                push(o, 13);
+                push(o, i)
+            }
+            VCell::LexicalEnvSlot(i) => {
+                push(o, 14);
+                push(o, *i)
+            }
+            VCell::LexicalEnvPtr(e, i) => {
+                push(o, 15);
+                push(o, *e);
+                push(o, *i)
+            }
+            VCell::Macro(x) => {
+                let n = self.nmac;
+                let (i, fresh) = self.id(16, Rc::as_ptr(x) as *const u8 as usize, n);
+                if fresh {
+                    self.nmac += 1;
+                }
+                push(o, 16);
+                push(o, i)
+            }
+            VCell::Acc => push(o, 17),
+            VCell::ArgumentCount(n) => {
+                push(o, 18);
+                push(o, *n)
+            }
+            VCell::BasePointer(n) => {
+                push(o, 19);
+                push(o, *n)
+            }
+            VCell::BasePointerOffset(z) => {
+                push(o, 20);
+                push(o, (*z < 0) as usize);
+                push(o, z.unsigned_abs() as usize)
+            }
+            VCell::BuiltInProc(_) => push(o, 21),
+            VCell::EnvironmentPointer(p) => {
+                push(o, 22);
+                push(o, *p)
+            }
+            VCell::GlobalEnvSlot(i) => {
+                push(o, 23);
+                push(o, *i)
+            }
+            VCell::InstructionPointer(l, i) => {
+                push(o, 24);
+                push(o, *l);
+                push(o, *i)
+            }
+            VCell::OpCode(_) => push(o, 25),
+            VCell::Ptr(p) => {
+                push(o, 26);
+                push(o, *p)
+            }
+        }
+    }
+
+    fn list(&mut self, l: &[VCell], o: &mut Vec<String>) {
+        push(o, l.len());
+        for v in l {
+            self.vcell(v, o);
+        }
+    }
+}
+
+/// the state before a collection as a case of interface 61
+fn snapshot(vm: &Vm) -> Vec<String> {
+    let mut ser = Ser::default();
+    let cells = vm.verif_heap_cells();
+    let states = vm.verif_gc_states();
+    let mut head: Vec<String> = vec![];
+    push(&mut head, 61);
+    push(&mut head, 0); // verbose flag
+    push(&mut head, cells.len());
+    push(&mut head, vm.verif_heap_chunk_size());
+    let mut body: Vec<String> = vec![];
+    let mut n = 0;
+    for i in 0..cells.len() {
+        if states[i] != 0 || cells[i] != VCell::Undefined {
+            n += 1;
+            push(&mut body, i);
+            push(&mut body, states[i] as usize);
+            ser.vcell(&cells[i], &mut body);
+        }
+    }
+    push(&mut head, n);
+    head.append(&mut body);
+    // free list, next to pop first
+    let fl = vm.verif_free_list();
+    push(&mut head, fl.len());
+    for a in fl.iter().rev() {
+        push(&mut head, *a);
+    }
+    let st = vm.verif_symbol_table();
+    push(&mut head, st.len());
+    for (name, a) in &st {
+        push(&mut head, *a);
+        push(&mut head, name.chars().count());
+        for ch in name.chars() {
+            push(&mut head, ch as usize);
+        }
+    }
+    // roots
+    let mut roots: Vec<String> = vec![];
+    let b = vm.verif_global_bindings();
+    push(&mut roots, b.len());
+    for (k, s) in &b {
+        push(&mut roots, *k);
+        push(&mut roots, *s);
+    }
+    ser.list(vm.verif_global_slots(), &mut roots);
+    ser.list(vm.verif_stack(), &mut roots);
+    ser.vcell(vm.verif_acc(), &mut roots);
+    push(&mut roots, vm.verif_ip().0);
+    push(&mut roots, vm.verif_ip().1);
+    push(&mut roots, vm.verif_ep());
+    push(&mut roots, vm.verif_bp());
+    // payload tables; encoding a payload may discover further payloads
+    let (mut bv, mut be, mut bl, mut bc): (Vec<String>, Vec<String>, Vec<String>, Vec<String>) =
+        (vec![], vec![], vec![], vec![]);
+    let (mut iv, mut ie, mut il, mut ic) = (0, 0, 0, 0);
+    loop {
+        let mut progress = false;
+        while iv < ser.vecs.len() {
+            let x = ser.vecs[iv].clone();
+            let l: Vec<VCell> = (0..x.len()).map(|i| x.get(i).unwrap()).collect();
+            ser.list(&l, &mut bv);
+            iv += 1;
+            progress = true;
+        }
+        while ie < ser.envs.len() {
+            let x = ser.envs[ie].clone();
+            let l: Vec<VCell> = (0..x.slot_len()).map(|i| x.get(i)).collect();
+            ser.list(&l, &mut be);
+            ie += 1;
+            progress = true;
+        }
+        while il < ser.lams.len() {
+            let x = ser.lams[il].clone();
+            ser.list(&x.bc, &mut bl);
+            ser.list(&x.args, &mut bl);
+            let keys: Vec<VCell> = x.envmap.get_map().iter().map(|it| it.0.clone()).collect();
+            ser.list(&keys, &mut bl);
+            il += 1;
+            progress = true;
+        }
+        while ic < ser.conts.len() {
+            let x = ser.conts[ic].clone();
+            let l: Vec<VCell> = x.stack().iter().cloned().collect();
+            ser.list(&l, &mut bc);
+            push(&mut bc, x.ip().0);
+            push(&mut bc, x.ip().1);
+            push(&mut bc, x.ep());
+            push(&mut bc, x.bp());
+            push(&mut bc, x.stack().get_sp());
+            ic += 1;
+            progress = true;
+        }
+        if !progress {
+            break;
+        }
+    }
+    push(&mut head, ser.vecs.len());
+    head.append(&mut bv);
+    push(&mut head, ser.envs.len());
+    head.append(&mut be);
+    push(&mut head, ser.lams.len());
+    head.append(&mut bl);
+    push(&mut head, ser.conts.len());
+    head.append(&mut bc);
+    head.append(&mut roots);
+    head
+}
+
+/// canonical description of the state after mark + sweep (same text as Model/WireGc.v)
+fn after_line(vm: &Vm) -> String {
+    let states = vm.verif_gc_states();
+    let alloc: Vec<u128> = (0..states.len()).filter(|i| states[*i] == 1).map(|i| i as u128).collect();
+    let used = states.iter().filter(|s| **s == 2).count();
+    let fl = vm.verif_free_list();
+    let st = vm.verif_symbol_table();
+    let mut hs: u128 = 0;
+    for (name, a) in &st {
+        let e = hash_seq(std::iter::once(*a as u128).chain(name.chars().map(|c| c as u128)));
+        hs = (hs + e) % P61;
+    }
+    format!(
+        "OK alloc {} {} free {} {} sym {} {} used {}",
+        alloc.len(),
+        hash_seq(alloc.iter().copied()),
+        fl.len(),
+        hash_seq(fl.iter().rev().map(|a| *a as u128)),
+        st.len(),
+        hs,
+        used
+    )
+}
+
+// -------------------------------------------------------------------- sessions
+struct Obs {
+    before: Option<Before>,
+    checked: u64,
+    problem: Option<String>,
+    snaps: Vec<(Vec<String>, String)>,
+    pending: Option<Vec<String>>,
+    snap_mod: u64,
+    snap_max: usize,
+    index: u64,
+    maxlive: usize,
+}
+
+fn install_observer(vm: &mut Vm, obs: Rc<RefCell<Obs>>) {
+    vm.verif_set_gc_observer(Some(Box::new(move |vm: &Vm, ev: GcEvent| {
+        let mut o = obs.borrow_mut();
+        match ev {
+            GcEvent::Before { .. } => {
+                let (live, dangling) = reachable(vm);
+                let nlive = live.iter().filter(|b| **b).count();
+                if nlive > o.maxlive {
+                    o.maxlive = nlive;
+                }
+                o.before = Some(Before {
+                    live,
+                    cells: vm.verif_heap_cells().to_vec(),
+                    symtab: vm.verif_symbol_table(),
+                    dangling,
+                });
+                let i = o.index;
+                o.index += 1;
+                if i > MAX_COLLECTIONS {
+                    panic!("collection budget exceeded");
+                }
+                if o.snap_mod > 0 && i % o.snap_mod == o.snap_mod - 1 && o.snaps.len() < o.snap_max {
+                    o.pending = Some(snapshot(vm));
+                }
+            }
+            GcEvent::AfterSweep { .. } => {
+                if let Some(b) = o.before.take() {
+                    o.checked += 1;
+                    if o.problem.is_none() {
+                        if let Err(e) = check_after(vm, &b) {
+                            o.problem = Some(format!("collection {}: {}", o.index - 1, e));
+                        }
+                    }
+                }
+                if let Some(s) = o.pending.take() {
+                    o.snaps.push((s, after_line(vm)));
+                }
+            }
+        }
+    })));
+}
+
+fn num(c: &[String], i: usize) -> u64 {
+    c[i].parse().unwrap()
+}
+
+fn new_vm(chunk: u64) -> Vm {
+    if chunk == 0 {
+        Vm::new()
+    } else {
+        Vm::verif_new(chunk as usize)
+    }
+}
+
+fn session_case(c: &[String]) -> String {
+    let (mode, k, seed, snap_mod, snap_max, chunk) =
+        (num(c, 1), num(c, 2), num(c, 3), num(c, 4), num(c, 5), num(c, 6));
+    let text = cps(&c[7..]);
+    let mut vm = new_vm(chunk);
+    let log = Rc::new(RefCell::new(String::new()));
+    vm.set_system_interface(Box::new(LogInterface { log: log.clone() }));
+    let obs = Rc::new(RefCell::new(Obs {
+        before: None,
+        checked: 0,
+        problem: None,
+        snaps: vec![],
+        pending: None,
+        snap_mod,
+        snap_max: snap_max as usize,
+        index: 0,
+        maxlive: 0,
+    }));
+    install_observer(&mut vm, obs.clone());
+    match mode {
+        1 => vm.verif_set_gc_every(Some(k as usize)),
+        2 => vm.verif_set_gc_random(Some((seed, k))),
+        _ => {}
+    }
+    let mut out = String::from("S ");
+    eval_all(&mut vm, &text, &mut out, BUDGET);
+    out.push_str("| ");
+    out.push_str(&log.borrow());
+    vm.verif_set_gc_observer(None);
+    let o = obs.borrow();
+    out.push_str(&format!(
+        "## gc={} forced={} checked={} indep={} cap={} used={}",
+        vm.verif_gc_count(),
+        vm.verif_gc_forced_count(),
+        o.checked,
+        match &o.problem {
+            None => "ok".to_string(),
+            Some(p) => format!("FAIL:{}", esc(p).replace(' ', "_")),
+        },
+        vm.verif_heap_capacity(),
+        vm.verif_heap_used()
+    ));
+    for (snap, after) in &o.snaps {
+        out.push_str(" SNAP ");
+        out.push_str(&snap.join(" "));
+        out.push_str(" AFTER ");
+        out.push_str(after);
+    }
+    out
+}
+
+/// 63 chunk nforms (len cps*)* : heap statistics after each form
+fn stats_case(c: &[String]) -> String {
+    let chunk = num(c, 1);
+    let nforms = num(c, 2) as usize;
+    let mut vm = new_vm(chunk);
+    let obs = Rc::new(RefCell::new(Obs {
+        before: None,
+        checked: 0,
+        problem: None,
+        snaps: vec![],
+        pending: None,
+        snap_mod: 0,
+        snap_max: 0,
+        index: 0,
+        maxlive: 0,
+    }));
+    install_observer(&mut vm, obs.clone());
+    let mut out = format!("H {}:{}:0", vm.verif_heap_capacity(), vm.verif_heap_used());
+    let mut i = 3;
+    let mut res = String::new();
+    for _ in 0..nforms {
+        let n = num(c, i) as usize;
+        let text = cps(&c[i + 1..i + 1 + n]);
+        i += 1 + n;
+        let mut r = String::new();
+        eval_all(&mut vm, &text, &mut r, usize::MAX - 1);
+        res.push_str(&r);
+        out.push_str(&format!(
+            " {}:{}:{}",
+            vm.verif_heap_capacity(),
+            vm.verif_heap_used(),
+            vm.verif_gc_count()
+        ));
+    }
+    let o = obs.borrow();
+    format!(
+        "{} | {}## checked={} indep={} maxlive={} maxalloc={}",
+        out,
+        res,
+        o.checked,
+        match &o.problem {
+            None => "ok".to_string(),
+            Some(p) => format!("FAIL:{}", esc(p).replace(' ', "_")),
+        },
+        o.maxlive,
+        vm.verif_max_alloc_per_tick()
+    )
+}
+
+// ----------------------------------------------------------------- 62: gc::Map
+fn pmap_case(c: &[String]) -> String {
+    use marwood::vm::gc::{Map, State};
+    let size = num(c, 1) as usize;
+    let mut m = Map::new(size);
+    let mut out = String::from("OK");
+    let mut i = 2;
+    while i < c.len() {
+        match num(c, i) {
+            0 if i + 1 < c.len() => {
+                out.push_str(match m.get(num(c, i + 1) as usize) {
+                    None => " N",
+                    Some(State::Free) => " F",
+                    Some(State::Allocated) => " A",
+                    Some(State::Used) => " U",
+                });
+                i += 2;
+            }
+            1 if i + 2 < c.len() => {
+                let st = match num(c, i + 2) {
+                    0 => State::Free,
+                    1 => State::Allocated,
+                    _ => State::Used,
+                };
+                let r = std::panic::catch_unwind(std::panic::AssertUnwindSafe(|| {
+                    m.set(num(c, i + 1) as usize, st)
+                }));
+                if r.is_err() {
+                    out.push_str(" PANIC");
+                    return out;
+                }
+                i += 3;
+            }
+            2 if i + 1 < c.len() => {
+                let r = std::panic::catch_unwind(std::panic::AssertUnwindSafe(|| {
+                    m.resize(num(c, i + 1) as usize)
+                }));
+                if r.is_err() {
+                    out.push_str(" PANIC");
+                    return out;
+                }
+                i += 2;
+            }
+            _ => break,
+        }
+    }
+    out
+}
+
+// ------------------------------------------------------------ 65: symbol builtins
+fn symbol_case(c: &[String]) -> String {
+    let op = num(c, 1);
+    let text = cps(&c[2..]);
+    let mut vm = Vm::new();
+    let quote = |x: Cell| Cell::new_list(vec![Cell::Symbol("quote".into()), x]);
+    let expr = match op {
+        0 => Cell::new_list(vec![Cell::Symbol("string->symbol".into()), Cell::String(text)]),
+        1 => Cell::new_list(vec![Cell::Symbol("symbol->string".into()), quote(Cell::Symbol(text))]),
+        _ => Cell::new_list(vec![
+            Cell::Symbol("symbol->string".into()),
+            Cell::new_list(vec![Cell::Symbol("string->symbol".into()), Cell::String(text)]),
+        ]),
+    };
+    match vm.eval(&expr) {
+        Ok(Cell::Symbol(s)) => format!("OK {}", esc(&s)),
+        Ok(Cell::String(s)) => format!("OK {}", esc(&s)),
+        Ok(_) => "ERR".into(),
+        Err(Error::ParseError(marwood::parse::Error::Incomplete)) => "ERR incomplete".into(),
+        Err(_) => "ERR".into(),
+    }
 }
